@@ -5,6 +5,7 @@ import json, random, re, sys
 OUT = sys.argv[2] if len(sys.argv) > 2 else '/verif/spec/selftest/regex_cases.ndjson'
 random.seed(20260924)
 ALPHA = [97, 98, 99, 45, 49, 65, 66]   # a b c - 1 A B
+WIDE = ALPHA + [32, 233, 1078, 20013, 57]   # + blank, e-acute, a Cyrillic and a CJK letter, 9 (subjects of expressions with class escapes)
 SPECIAL = {40, 41, 42, 43, 46, 63, 91, 92, 93, 94, 36, 123, 124, 125, 45}
 def gen(d, groups):
     k = random.random()
@@ -12,19 +13,40 @@ def gen(d, groups):
         t = random.random()
         if t < 0.6: return {"r": "chr", "c": random.choice(ALPHA)}
         if t < 0.7: return {"r": "any"}
+        if t < 0.78: return {"r": "uc", "c": random.choice(["w", "d", "s", "L"]), "neg": random.random() < 0.25}
         if t < 0.85: return {"r": "cls", "set": random.sample([97, 98, 99, 49], random.randint(1, 3)), "neg": random.random() < 0.3}
         return {"r": "rng", "lo": 97, "hi": random.choice([97, 98, 99]), "neg": random.random() < 0.3}
     if k < 0.55: return {"r": "cat", "a": gen(d - 1, groups), "b": gen(d - 1, groups)}
     if k < 0.7: return {"r": "alt", "a": gen(d - 1, groups), "b": gen(d - 1, groups)}
     if k < 0.78: return {"r": "star", "a": gen(d - 1, groups)}
     if k < 0.86: return {"r": "plus", "a": gen(d - 1, groups)}
-    if k < 0.92: return {"r": "opt", "a": gen(d - 1, groups)}
+    if k < 0.90: return {"r": "opt", "a": gen(d - 1, groups)}
+    if k < 0.95:
+        lo = random.randint(0, 3); hi = lo + random.choice([0, 0, 1, 2, 40]) if lo > 0 else random.choice([1, 2, 3, 40])
+        return {"r": "rep", "a": gen(0, groups), "lo": lo, "hi": hi}       # (a single character or class is repeated)
     if groups[0] < 3:
         groups[0] += 1
         g = groups[0]
         return {"r": "grp", "a": gen(d - 1, groups), "g": g}
     return {"r": "chr", "c": random.choice(ALPHA)}
-def atom(r): return r["r"] in ("chr", "any", "cls", "rng", "grp")
+def atom(r): return r["r"] in ("chr", "any", "cls", "rng", "grp", "uc")
+LETTERS = "a-zA-Z\u00e9\u00f3\u0142\u017c\u0436\u4e2d"
+def has(r, kind): return r["r"] == kind or any(has(r[f], kind) for f in ("a", "b") if f in r and isinstance(r[f], dict))
+def pyrender(r):
+    # the same expression for Python's re: \p{L} is not known to it, the known letters are spelled out
+    k = r["r"]
+    if k == "uc":
+        if r["c"] == "L": return "[" + ("^" if r["neg"] else "") + LETTERS + "]"
+        return "\\" + (r["c"].upper() if r["neg"] else r["c"])
+    if k == "rep": return pyparen(r["a"]) + "{" + str(r["lo"]) + ("" if r["hi"] == r["lo"] else "," + str(r["hi"])) + "}"
+    if k == "cat": return (pyparen(r["a"]) if r["a"]["r"] == "alt" else pyrender(r["a"])) + (pyparen(r["b"]) if r["b"]["r"] == "alt" else pyrender(r["b"]))
+    if k == "alt": return pyrender(r["a"]) + "|" + pyrender(r["b"])
+    if k == "star": return pyparen(r["a"]) + "*"
+    if k == "plus": return pyparen(r["a"]) + "+"
+    if k == "opt": return pyparen(r["a"]) + "?"
+    if k == "grp": return "(" + pyrender(r["a"]) + ")"
+    return ''.join(map(chr, render(r)))
+def pyparen(r): return pyrender(r) if atom(r) else "(?:" + pyrender(r) + ")"
 def paren(r): return render(r) if atom(r) else [40, 63, 58] + render(r) + [41]
 def render(r):
     k = r["r"]
@@ -38,6 +60,10 @@ def render(r):
     if k == "plus": return paren(r["a"]) + [43]
     if k == "opt": return paren(r["a"]) + [63]
     if k == "grp": return [40] + render(r["a"]) + [41]
+    if k == "rep": return paren(r["a"]) + [123] + [ord(c) for c in str(r["lo"])] + ([] if r["hi"] == r["lo"] else [44] + [ord(c) for c in str(r["hi"])]) + [125]
+    if k == "uc":
+        if r["c"] == "L": return [92, 80 if r["neg"] else 112, 123, 76, 125]
+        return [92, ord(r["c"].upper() if r["neg"] else r["c"])]
 def groups_in_order(r, acc):
     # group numbers must follow the order of opening parentheses
     if r["r"] == "grp":
@@ -52,10 +78,10 @@ while len(out) < n:
     ast = gen(3, g)
     order = groups_in_order(ast, [])
     if order != sorted(order): continue
-    pat = ''.join(map(chr, render(ast)))
+    pat = pyrender(ast)
     try: cre = re.compile(pat)
     except re.error: continue
-    s = ''.join(chr(random.choice(ALPHA)) for _ in range(random.randint(0, 6)))
+    s = ''.join(chr(random.choice(WIDE if (has(ast, "uc") or has(ast, "rep")) else ALPHA)) for _ in range(random.randint(0, 7)))
     empty = any(m.start() == m.end() for m in cre.finditer(s)) or cre.fullmatch('') is not None
     rep = random.choice(["", "x", "[$1]", "$1$1", "<\\$>", "$2-"])
     rec = {"ast": ast, "pat": render(ast), "s": [ord(c) for c in s], "matches": cre.search(s) is not None, "empty": empty, "ngroups": g[0]}
